@@ -12,7 +12,7 @@ LEVEL_TEXT = (
     "phi insertion is iterated over the dominance frontier of every writing block with an unconditional re-queue; renaming runs"
     " block -> successors' phis -> dominator children with paired scopes; pipeline order of into_ssa; phis are prepended and matched"
     " by the full variable name; only locals are versioned; version keys are injective in (name, suffix) and shared by all"
-    " accessors; every child expression is renamed; every version gets a declaration."
+    " accessors; every child expression is renamed; every version gets a declaration; the version environment evaluated over enter / leave / assign / read sequences (a read sees the innermost live assignment only)."
 )
 NOT_DECIDED = "reaching-definition correctness per path (that each read names the version assigned last on every path)."
 TRUSTED = ["syn parser", "identifier alphabet read from the grammar"]
